@@ -272,6 +272,19 @@ def _unnest(pat, n):
     return _unnest(parts[0], n - 1) + [parts[1]]
 
 
+def _is_range(expr):
+    depth = 0
+    for k in range(len(expr) - 1):
+        ch = expr[k]
+        if ch in '([{':
+            depth += 1
+        elif ch in ')]}':
+            depth -= 1
+        elif ch == '.' and expr[k + 1] == '.' and depth == 0:
+            return True
+    return False
+
+
 def rule_R6(src):
     """for-loops over slices/Vecs (`&v`, `v.iter()`, `.enumerate()`, `.zip(..)`) -> index loops with element lets.
     Ranges are left alone.  Loop order and the number of iterations (min of the zipped lengths) are unchanged."""
@@ -289,8 +302,14 @@ def rule_R6(src):
             if not m:
                 continue
             pat, expr = m.group(1).strip(), re.sub(r'\s+\.(?=[A-Za-z_])', '.', _flat(m.group(2)))
+            if pat == '_' and _is_range(expr):
+                new = 'for vx_i%d in %s' % (ordinal, m.group(2))
+                src = src[:kw] + _pad(new, header) + src[brace:]
+                n += 1
+                changed = True
+                break
             is_rev = re.match(r'^\((.*)\.\.(.*)\)\.rev\(\)$', expr) is not None
-            is_range = re.match(r'^\(?[^()]*\.\.', expr) is not None and '.iter()' not in expr and '.zip(' not in expr
+            is_range = _is_range(expr)
             if is_range and not is_rev:
                 continue
             idx = 'vx_i%d' % ordinal
@@ -379,6 +398,35 @@ def rule_R11(src):
     return ''.join(out), n
 
 
+def rule_R11b(src):
+    """E.iter().map(|p| BODY).collect()  ->  { let mut vx_out = Vec::new(); for p in E.iter() { vx_out.push(BODY); } vx_out }
+    BODY may be a block with side effects on locals/self; collect() evaluates the iterator in order."""
+    mask = rl.code_mask(src)
+    out, pos, n = [], 0, 0
+    rx = re.compile(r'(&?\s*[A-Za-z_][A-Za-z0-9_]*(?:\s*\.\s*[A-Za-z_0-9]+)*)\s*\.iter\(\)\s*\.map\(\|\s*([^|]+?)\s*\|')
+    for m in rl.find_code(src, rx, mask=mask):
+        if m.start() < pos:
+            continue
+        o = src.rfind('.map(', m.start(), m.end()) + 4
+        c = rl.match_bracket(src, o, mask)
+        tail = re.match(r'\s*\.collect(?:::<Vec<_>>)?\(\)', src[c + 1:])
+        if not tail:
+            continue
+        body_expr = src[m.end():c].strip()
+        recv = re.sub(r'\s+', '', m.group(1))
+        amp = ''
+        if recv.startswith('&'):
+            amp, recv = '&', recv[1:]
+        new = amp + '{ let mut vx_out = Vec::new(); for %s in %s.iter() { let vx_e = %s; vx_out.push(vx_e); } vx_out }' % (m.group(2), recv, _flat(body_expr))
+        end = c + 1 + tail.end()
+        out.append(src[pos:m.start()])
+        out.append(_pad(new, src[m.start():end]))
+        pos = end
+        n += 1
+    out.append(src[pos:])
+    return ''.join(out), n
+
+
 GLOBAL_RULES = [
     ('R1', 'attributes removed (#[inline], #[allow], #[unroll_for_loops], #[must_use], #[rustfmt::skip], #[cfg] of the selected arm)',
      _regex_rule(r'#\[(?:inline|allow|unroll_for_loops|must_use|rustfmt::skip|cfg|cold|doc)[^\]]*\]', '')),
@@ -386,6 +434,7 @@ GLOBAL_RULES = [
     ('R5a', 'array pattern `let [a,b,..] = e;` -> indexed lets', rule_R5a),
     ('R5b', 'destructuring assignment `(a, b) = e;` -> temporary + field assignments', rule_R5b),
     ('R11', '(a..b).map(|i| E).collect() -> push loop', rule_R11),
+    ('R11b', 'v.iter().map(|x| BODY).collect() -> push loop', rule_R11b),
     ('R6', 'for-loops over slices (&v, .iter(), .enumerate(), .zip(), (a..b).rev()) -> index loops with element lets', rule_R6),
     ('R2', 'branch_hint() removed (empty asm!, no semantics)', _regex_rule(r'\bbranch_hint\(\)\s*;', '')),
     ('R3', 'plonky2_util::assume(p) renamed to util_assume(p) with `requires p` (assumption becomes an obligation)',
